@@ -70,11 +70,14 @@ structure RawHrp where
 
 def isDigit (c : Char) : Bool := '0' ≤ c ∧ c ≤ '9'
 
+def digitChar : Nat → Char
+  | 0 => '0' | 1 => '1' | 2 => '2' | 3 => '3' | 4 => '4' | 5 => '5' | 6 => '6' | 7 => '7' | 8 => '8' | _ => '9'
+
 /-- decimal digits, most significant first (`u64::to_string`) -/
 def natDigitsAux : Nat → Nat → List Char → List Char
   | 0, _, acc => acc
   | fuel + 1, n, acc =>
-    let acc' := Char.ofNat (48 + n % 10) :: acc
+    let acc' := digitChar (n % 10) :: acc
     if n < 10 then acc' else natDigitsAux fuel (n / 10) acc'
 
 def natDigits (n : Nat) : List Char := natDigitsAux (n + 1) n []
